@@ -278,6 +278,45 @@ Proof.
     + intros Hin. pose proof (inrs_length gs p Hin). lia.
 Qed.
 
+(* exact-value checker: accepted values are within the tolerance of the multilinear polynomial of EVERY cell that
+   contains the point (so of the value Props/C14.v proves convex, exact on grid points, continuous across borders,
+   exact on multi-affine tables and common to Interp1D/2D/3D/ND) *)
+Lemma exactnb_sound : forall tol n gs (v : arrq n) p out, 0 <= tol -> wf n gs v -> inrs gs p ->
+  Spec.exactnb tol n gs v p out = true ->
+  exists cs1, cells gs p cs1 /\
+    forall lo hi, (forall q, In q (corners n cs1 v) -> lo <= q /\ q <= hi) ->
+      forall cs, cells gs p cs ->
+        Qabs (out - ndP n gs cs p v) <= tol * (1 + 2 * Qmax (Qabs lo) (Qabs hi)).
+Proof.
+  intros tol n gs v p out Htol Hw Hin Hc. unfold Spec.exactnb in Hc.
+  destruct (interpolaten_formula n gs v p Hw Hin) as [cs0 [q [Hc0 [Hq Eq]]]].
+  unfold mk in Hq. rewrite Hq in Hc.
+  destruct (block_spec n gs v p Hw Hin) as [sels [cs1 [b [Hok [Hg Hb]]]]].
+  destruct (gather_flat n gs p sels cs1 v b Hw Hok Hg) as [Hne Hsub].
+  rewrite Hb in Hc. apply Qle_bool_iff in Hc. set (vals := Spec.flat n b) in *.
+  exists cs1. split; [exact (sels_ok_cells _ _ _ _ Hok)|]. intros lo hi Hbd cs Hcs.
+  assert (Hq' : q == ndP n gs cs p v) by (rewrite Eq; apply ndP_any_cell; assumption).
+  rewrite Hq' in Hc.
+  assert (L1 : lo <= Spec.lmin vals) by (apply lmin_glb; [exact Hne|intros x Hx; apply Hbd, Hsub, Hx]).
+  assert (L2 : Spec.lmax vals <= hi) by (apply lmax_lub; [exact Hne|intros x Hx; apply Hbd, Hsub, Hx]).
+  assert (L3 : Spec.lmin vals <= Spec.lmax vals).
+  { destruct vals as [|a r]; [congruence|]. apply Qle_trans with a; [apply lmin_le|apply lmax_ge]; left; reflexivity. }
+  set (M := Qmax (Qabs lo) (Qabs hi)).
+  assert (A1 : Qabs (Spec.lmin vals) <= M) by (apply abs_between; lra).
+  assert (A2 : Qabs (Spec.lmax vals) <= M) by (apply abs_between; lra).
+  eapply Qle_trans; [exact Hc|]. apply qmul_mono; [exact Htol|lra].
+Qed.
+
+Lemma check_exact_sound : forall tol n gs (v : arrq n) (p : list Q) (r : res Q), wf n gs v -> inrs gs p ->
+  Spec.check_exact tol n gs v p r = true -> exists out, r = Ok out /\ Spec.exactnb tol n gs v p out = true.
+Proof.
+  intros tol n gs v p r Hw Hin Hc. unfold Spec.check_exact in Hc.
+  pose proof (wf_length n gs v Hw) as Hlen. pose proof (inrs_length gs p Hin) as Hpl.
+  assert (El : (List.length p =? n)%nat = true) by (apply Nat.eqb_eq; lia). rewrite El in Hc. cbn [negb] in Hc.
+  assert (Ei : Spec.insideb n gs p = true) by (apply (insideb_spec n gs v p Hw); [lia|exact Hin]).
+  rewrite Ei in Hc. cbn [negb] in Hc. destruct r as [out| | |]; try discriminate. exists out. split; [reflexivity|exact Hc].
+Qed.
+
 (* ---------- the speed/grade checker ---------- *)
 Lemma qclamp_inr : forall lo hi v, lo <= hi -> lo <= Spec.qclamp lo hi v /\ Spec.qclamp lo hi v <= hi.
 Proof.
@@ -325,6 +364,22 @@ Proof.
   change (T QN) with Q in *. rewrite (last_opt_nth (x0 :: xr)) in H3 by congruence.
   apply andb_true_iff in H3. destruct H3 as [H3 H4]. apply Qeq_bool_iff in H3. apply Qle_bool_iff in H4.
   split; [exact H1|]. split; [exact H2|]. split; [cbn; lia|]. split; [exact H3|exact H4].
+Qed.
+
+Lemma check_sg_exact_sound : forall tol (m : @interp2 QN) sv gv (r : res Q), valid2 m ->
+  Spec.check_sg_exact tol (x2 m) (y2 m) (f2 m) sv gv r = true ->
+  exists out, r = Ok out /\
+    Spec.exactnb tol 2 [x2 m; y2 m] (f2 m)
+      [Spec.qclamp (nq (x2 m) 0) (lastq (x2 m)) sv; Spec.qclamp (nq (y2 m) 0) (lastq (y2 m)) gv] out = true.
+Proof.
+  intros tol m sv gv r Hv Hc. pose proof Hv as [Hxi Hyi Hxl Hyl _ _].
+  unfold Spec.check_sg_exact in Hc. change (T QN) with Q in *.
+  destruct (x2 m) as [|x0 xr] eqn:Ex; [cbn in Hxl; lia|].
+  destruct (y2 m) as [|y0 yr] eqn:Ey; [cbn in Hyl; lia|].
+  cbv beta iota in Hc. change (T QN) with Q in *.
+  rewrite (last_opt_nth (x0 :: xr)) in Hc by congruence.
+  rewrite (last_opt_nth (y0 :: yr)) in Hc by congruence.
+  destruct r as [out| | |]; try discriminate. exists out. split; [reflexivity|]. exact Hc.
 Qed.
 
 (* the four corner values of a 2-D cell *)
